@@ -1038,8 +1038,10 @@ func (c *Client) MkdirAll(path string) error {
 // An error will be returned if no file or directory with the specified path exists
 func (c *Client) RemoveAll(path string) error {
 
-	// Get the file/directory information
-	fi, err := c.Stat(path)
+	// Get the file/directory information.
+	// Do not follow a symbolic link: like os.RemoveAll, only the link itself is removed,
+	// never the contents of the directory it may point to (and a dangling link can be removed too).
+	fi, err := c.Lstat(path)
 	if err != nil {
 		return err
 	}
